@@ -75,6 +75,10 @@ class Obligation:
         return d
 
 
+# per-file canonicalisers registered by a property module (applied after the general normalisers): (module AST) -> None
+FILE_NORMALISERS: Dict[str, list] = {}
+
+
 class Context:
     """Read-only view of the repository under analysis.
 
@@ -130,6 +134,9 @@ class Context:
                     self.cache["inlined_constants:" + rel] = inline_new_module_constants(mod, module_names()[rel])
                 from .pyutil import unroll_literal_dispatch_inplace, loops_to_comprehensions_inplace, merge_nested_ifs_inplace
                 unroll_literal_dispatch_inplace(mod)
+                if os.environ.get("VERIF_NO_EXTENDLOOP") != "1":
+                    from .pyutil import extend_comprehension_to_loop_inplace
+                    self.cache["extendloop:" + rel] = extend_comprehension_to_loop_inplace(mod)
                 if os.environ.get("VERIF_NO_ANYLOOP") != "1":
                     from .pyutil import any_guard_to_loops_inplace
                     self.cache["anyloop:" + rel] = any_guard_to_loops_inplace(mod)
@@ -149,6 +156,9 @@ class Context:
                     from .inline_helpers import drop_self_assignments, tidy_flags
                     drop_self_assignments(mod)
                     tidy_flags(mod)
+            if os.environ.get("VERIF_NO_NORMALISE") != "1":
+                for fnorm in FILE_NORMALISERS.get(rel, []):
+                    fnorm(mod)
             for parent in ast.walk(mod):
                 for child in ast.iter_child_nodes(parent):
                     child._parent = parent  # type: ignore[attr-defined]
